@@ -381,6 +381,86 @@ Qed.
 
 Theorem bounds_new_R cur p : refines c cur l p -> bounds_R (b_new c lo hi cur) (-1).
 Proof. intros H. unfold b_new. eapply first_R. exact H. Qed.
+
+(* the absolute calls only need the child to be a reference cursor AFTER its own absolute call
+   (recovery after an Err: Proofs_Recover.v) *)
+Lemma first_R' cur pos : refines c (c_first c cur) l (-1) ->
+  (forall k, refines c (c_seek c k cur) l (count (below k) l)) -> bounds_R (b_first_raw c lo hi (mkB cur pos None)) (-1).
+Proof.
+  intros Hf0 Hs0. pose proof a_range as Ha. pose proof a_lo as Hlo. unfold b_first_raw.
+  assert (forall cur1 q, refines c cur1 l q -> 0 <= q <= a -> (q = n -> a = n) ->
+          bounds_R (check_end c hi (mkB (prev_if_some c cur1) BeforeStart None)) (-1)) as Hgen.
+  { intros cur1 q Hq Hqa Hqn. rewrite check_end_np by discriminate.
+    split; [reflexivity|]. cbn [b_cur b_pos]. unfold prev_if_some. rewrite (has_key_idx _ _ Hq).
+    pose proof (refines_prev c _ _ _ Hq) as Hp. unfold ref_prev in Hp.
+    destruct (Z.leb_spec 0 q); destruct (Z.ltb_spec q n); cbn [andb]; try lia.
+    - eexists; split; [exact Hp|]. split; [reflexivity|]. zb; lia.
+    - eexists; split; [exact Hq|]. split; [reflexivity|]. right. lia. }
+  assert (lo = Unbounded \/ (exists k, lo = Included k) \/ (exists k, lo = Excluded k)) as Hcase
+    by (clear; destruct lo; eauto).
+  destruct Hcase as [Elo|[[k Elo]|[k Elo]]]; rewrite Elo in Hlo; rewrite Elo at 1;
+    unfold set_cur, set_pos; cbn [b_cur b_pos b_fail].
+  - rewrite check_end_np by discriminate. split; [reflexivity|]. cbn [b_cur b_pos].
+    pose proof Hf0 as Hf. unfold prev_if_some. rewrite (has_key_idx _ _ Hf).
+    replace (0 <=? -1) with false by reflexivity. cbn [andb].
+    eexists; split; [exact Hf|]. split; [reflexivity|]. lia.
+  - pose proof (Hs0 k) as Hs. pose proof (count_range (below k) l).
+    apply (Hgen _ _ Hs); unfold n in *; lia.
+  - pose proof (Hs0 k) as Hs. pose proof (count_range (below k) l).
+    apply (Hgen _ _ Hs); unfold n in *; lia.
+Qed.
+
+Lemma last_R' cur pos : refines c (c_last c cur) l (len l) ->
+  (forall k, refines c (c_seek c k cur) l (count (below k) l)) -> bounds_R (b_last_raw c fuel lo hi (mkB cur pos None)) M.
+Proof.
+  intros Hl0 Hs0. pose proof b_range as Hb. pose proof a_range as Ha. unfold b_last_raw.
+  assert (forall cur1, refines c cur1 l b ->
+          bounds_R (check_start c lo (mkB cur1 AfterEnd None)) M) as Hgen.
+  { intros cur1 H1. rewrite check_start_np by discriminate. split; [reflexivity|].
+    cbn [b_cur b_pos]. eexists; split; [exact H1|]. split; [reflexivity|]. lia. }
+  assert (hi = Unbounded \/ (exists k, hi = Included k) \/ (exists k, hi = Excluded k)) as Hcase
+    by (clear; destruct hi; eauto).
+  destruct Hcase as [Ehi|[[k Ehi]|[k Ehi]]]; rewrite Ehi at 1;
+    unfold set_cur, set_pos; cbn [b_cur b_pos b_fail].
+  - apply Hgen. rewrite (b_hi_unbounded Ehi). exact Hl0.
+  - pose proof (Hs0 k) as Hs.
+    destruct (skip_equal_spec k Ehi fuel _ _ Hs) as [cur' [E H']].
+    + split; [lia|]. unfold b. rewrite Ehi. apply count_le. intros e _. unfold below. cbn. kdestr; auto; intros _; exfalso; korder.
+    + pose proof (count_range (below k) l). unfold n in *. lia.
+    + rewrite E. apply Hgen. exact H'.
+  - apply Hgen. unfold b. rewrite Ehi. cbn [in_hi]. exact (Hs0 k).
+Qed.
+
+Lemma seek_R' k cur pos : refines c (c_seek c k cur) l (count (below k) l) ->
+  bounds_R (b_seek_raw c fuel lo hi k (mkB cur pos None)) (count (below k) B).
+Proof.
+  pose proof a_range as Ha. pose proof b_range as Hb. pose proof M_eq as HM. pose proof M_nonneg as HM0.
+  intros Hs.
+  rewrite seek_B. unfold b_seek_raw. unfold set_cur, set_pos; cbn [b_cur b_pos b_fail].
+  pose proof (count_range (below k) l) as Hq. fold n in Hq.
+  set (q := count (below k) l) in *.
+  rewrite (check_end_idx _ _ _ Hs).
+  destruct ((0 <=? q) && (q <? n) && (b <=? q)) eqn:E1.
+  - (* past the end bound *)
+    rewrite check_start_np by discriminate. cbn [b_pos bpos_eqb orb].
+    replace (Z.max 0 (Z.min q b - a)) with M by (revert E1; zb; cbn [andb]; intros; try discriminate; lia).
+    eapply last_R; eassumption.
+  - rewrite (check_start_idx _ _ _ Hs).
+    destruct ((0 <=? q) && (q <? n) && (q <? a)) eqn:E2; cbn [b_pos bpos_eqb orb].
+    + (* before the start bound: seek_to_first, next *)
+      pose proof (first_R (c_seek c k cur) q Positioned Hs) as HF.
+      rewrite guard_ok by (destruct HF as [HF _]; exact HF).
+      pose proof (next_R _ _ HF) as HN. unfold ref_next in HN. fold M in HN.
+      replace (Z.max 0 (Z.min q b - a)) with (if M <=? -1 + 1 then M else -1 + 1);
+        [exact HN|]. revert E2. zb; cbn [andb]; intros; try discriminate; lia.
+    + cbn [b_cur]. rewrite (has_key_idx _ _ Hs).
+      destruct ((0 <=? q) && (q <? n)) eqn:E3; cbn [negb].
+      * split; [reflexivity|]. cbn [b_cur b_pos]. exists q. split; [assumption|].
+        left. revert E1 E2 E3. zb; cbn [andb]; intros; try discriminate; lia.
+      * replace (Z.max 0 (Z.min q b - a)) with M by (revert E3; zb; cbn [andb]; intros; try discriminate; lia).
+        eapply last_R; eassumption.
+Qed.
+
 End BoundsProof.
 
 (* the compositional statement: over any child that behaves as a reference cursor over a sorted
